@@ -510,6 +510,16 @@ impl Storage {
     }
 }
 
+#[cfg(feature = "verif")]
+pub fn verif_partition_filename(id: PartitionID, subpartition_key: &str) -> String {
+    partition_filename(id, subpartition_key)
+}
+
+#[cfg(feature = "verif")]
+pub fn verif_sanitize_table_name(table_name: &str) -> String {
+    sanitize_table_name(table_name)
+}
+
 fn partition_filename(id: PartitionID, subpartition_key: &str) -> String {
     format!("{:05}_{}.part", id, subpartition_key)
 }
